@@ -402,6 +402,10 @@ func Coordinate(opt Options, plan *Plan, store *kf.Store) int {
 
 	// report
 	exit := 0
+	if total["harness_errors"] > 0 {
+		fmt.Printf("HARNESS ERROR: %d internal consistency failures of the checking machinery itself (see stderr of the workers); nothing is reported as a violation\n", total["harness_errors"])
+		exit = 2
+	}
 	for i, n := range known {
 		f := store.Findings[i]
 		fmt.Printf("KNOWN-FINDING: property=%s %s %s (%d listed cases hit)\n", opt.Prop, f.ID, f.What, n)
@@ -431,7 +435,9 @@ func Coordinate(opt Options, plan *Plan, store *kf.Store) int {
 			printed++
 		}
 		fmt.Printf("%s: %d failing cases not in the known-findings store (%d replay files written)\n", opt.Prop, nUnknown, printed)
-		exit = 1
+		if exit == 0 {
+			exit = 1
+		}
 	}
 	exhaustive := !deadlineHit && unitsDone >= plan.Units*len(passes)
 	cov := map[string]any{}
